@@ -22,6 +22,14 @@ CHECKS = {
          "Trusted: Lean kernel + propext/Classical.choice/Quot.sound, the Python->Lean translator (validated against the real functions on an "
          "exhaustive grid each run), rank-mapping of ordered scalars to Int. Outside the model: partition text typing, cross-type comparison.",
          "Lean 4 proof over regenerated model + correspondence", "§6 C05"),
+ "C16": ("Lean 4 theorems about a byte-level model of the in-place footer rewrite: bytes before the footer are untouched for any new "
+         "footer; with truncation (regenerated from the source: the ordered file-method calls of update_file_custom_metadata) the result "
+         "is strictly framed whatever the size change, and the footer position is stable so the invariant holds along any update "
+         "sequence; without truncation a proved witness shows a 1..7-byte shrink is unreadable (the repaired defect); the key-merge "
+         "rule equals the plain map specification for one update on distinct keys. Model tied to the code by byte-for-byte and "
+         "key-list correspondence over generated update histories; oracle on the real files after every step.",
+         "Trusted: Lean kernel + standard axioms; POSIX write/truncate semantics (assumed); the Thrift serialiser (C10). ",
+         "Lean 4 proof (byte-level model, regenerated I/O sequence) + correspondence", "§6 C16"),
 }
 
 def main():
